@@ -470,6 +470,61 @@ fn gen_programs(ctx: &Ctx, emit: &mut dyn FnMut(String)) {
             emit(p.line(&[], &[], false, &format!("kind=long-{}-{} rerun={}", kind, name, if name == "cross-last" { 1 } else { 0 })));
         }
     }
+    // ---- totals that land EXACTLY on a multiple of the interval at an instruction boundary. Every charge is a multiple
+    //      of 3, so the first multiple that can be hit exactly is the third (6,000,000): the message is due there, not one
+    //      instruction later — both when the run goes on and when that instruction is the one that reaches the exit
+    for _ in 0..per(if quick { 16 } else { 240 }) {
+        let kind = *rng.pick(&["heavy", "alu", "heavy"]);
+        let shape = Shape { slow: true, body: random_body(&mut rng, kind), kind, text: None, handler: false };
+        let seed = rng.u32() as u64;
+        let t = |outer: u16, inner: u16, f: usize| dry_total(&build(&shape, seed, outer, inner, f), 3_000_000).map(|x| x.0);
+        let (t11, t12, t21, t110) = match (t(1, 1, 0), t(1, 2, 0), t(2, 1, 0), t(1, 1, 10)) {
+            (Some(a), Some(b), Some(c), Some(d)) => (a, b, c, d),
+            _ => continue,
+        };
+        let i = t12 - t11;
+        let o = t21 - t11 - i;
+        let q = (t110 - t11) / 10;
+        if i == 0 || q == 0 {
+            continue;
+        }
+        let target = 3 * T;
+        let mut outer = 1usize;
+        while (target.saturating_sub(t11)) / (outer * i) > 60000 {
+            outer += 1;
+        }
+        let fixed = t11 + (outer - 1) * (o + i);
+        let inner0 = 1 + (target.saturating_sub(fixed + 2 * i * outer)) / (outer * i);
+        // fewer inner iterations until the remainder is a whole number of fillers
+        let mut found = None;
+        for d in 0..(q.min(64)) {
+            if inner0 <= d + 1 {
+                break;
+            }
+            let inner = inner0 - d;
+            let before = fixed + outer * (inner - 1) * i;
+            let need = target - before;
+            if need % q == 0 && need / q >= 1 && need / q <= 4000 {
+                found = Some((inner, need / q));
+                break;
+            }
+        }
+        let (inner, f) = match found {
+            Some(x) => x,
+            None => continue,
+        };
+        for (name, extra) in [("at-exit", 0usize), ("mid-run", 1 + rng.below(6) as usize)] {
+            let p = build(&shape, seed, outer as u16, inner as u16, f + extra);
+            // the prediction is linear in the counts: keep the case only if a dry run confirms the exact landing
+            let hit = match name {
+                "at-exit" => dry_total(&p, 3_000_000).map(|x| x.0 == target).unwrap_or(false),
+                _ => dry_total(&build(&shape, seed, outer as u16, inner as u16, f), 3_000_000).map(|x| x.0 == target).unwrap_or(false),
+            };
+            if hit {
+                emit(p.line(&[], &[], false, &format!("kind=long-{}-exact-{} rerun=0", kind, name)));
+            }
+        }
+    }
     // ---- the timer running across the run, with an interrupt handler (beyond the quantifier: model comparison;
     //      also: peripherals see the same states that are counted)
     for _ in 0..per(if quick { 32 } else { 400 }) {
